@@ -36,12 +36,15 @@ func vp_C16_wellknown() {
 	rt := &vpWellKnownRT{header: http.Header{}}
 	rt.fail = vpNondetBool("transport_fails")
 	rt.status = vpNondetInt("status", 100, 599) // any status code; only 200 counts
-	bodyKind := vpChoice("body", "delegates", "delegates-with-port", "no-m.server", "empty-m.server", "not-json")
+	bodyKind := vpChoice("body", "delegates", "delegates-with-port", "delegates-and-names-a-lifetime", "no-m.server", "empty-m.server", "not-json")
 	switch bodyKind {
 	case "delegates":
 		rt.body = []byte(`{"m.server":"matrix.example.org"}`)
 	case "delegates-with-port":
 		rt.body = []byte(`{"m.server":"matrix.example.org:8449","other":1}`)
+	case "delegates-and-names-a-lifetime":
+		// the body is the remote server's: it must not be able to set the cache lifetime the caller computes
+		rt.body = []byte(`{"m.server":"matrix.example.org","CacheExpiresAt":12345,"cacheexpiresat":67890}`)
 	case "no-m.server":
 		rt.body = []byte(`{"server":"matrix.example.org"}`)
 	case "empty-m.server":
@@ -92,7 +95,7 @@ func vp_C16_wellknown() {
 	http.DefaultTransport = old
 
 	vpAssert("asked-the-well-known-url", rt.asked == "https://example.org/.well-known/matrix/server")
-	honoured := !rt.fail && rt.status == 200 && cl != "51201" && (bodyKind == "delegates" || bodyKind == "delegates-with-port")
+	honoured := !rt.fail && rt.status == 200 && cl != "51201" && (bodyKind == "delegates" || bodyKind == "delegates-with-port" || bodyKind == "delegates-and-names-a-lifetime")
 	vpAssert("honoured-iff-valid", (err == nil) == honoured)
 	if err == nil {
 		wantAddr := "matrix.example.org"
